@@ -107,7 +107,7 @@ class Ctx:
             raise Undecided(unit.name, 'verus produced no usable result: ' + res['stderr'][-800:])
         for name, fm in meta['fns'].items():
             self.functions.append('%s::%s' % (fm['file'], name))
-            short = name.split('#')[0]
+            short = fm.get('fn') or name.split('#')[0]
             if short not in per_fn:
                 raise Undecided(unit.name, 'function %s not reported by verus (vacuous?)' % name)
         for fn, r, n in meta['rules']:
@@ -143,7 +143,7 @@ class Ctx:
                 for f in body_fail:
                     self.add(Obligation(self.prop, vu.obligation_name(unit, f), 'verus', 'complete', 'failed', detail=f['rendered'], unit=unit, fn=name))
             else:
-                ok = per_fn.get(name.split('#')[0], False) or not fl
+                ok = per_fn.get(fm.get('fn') or name.split('#')[0], False) or not fl
                 self.add(Obligation(self.prop, '%s/%s:body(panic-freedom,callee-preconditions)' % (unit.name, name), 'verus', 'complete',
                                     'discharged' if ok and not fl else ('failed' if not fl else 'discharged'), fn=name, unit=unit))
         # failures in prelude / spec lemmas (not in any extracted fn)
@@ -258,7 +258,7 @@ class Ctx:
             return ''
         code = m.group(1).strip()
         for fs in ob.unit.fns:
-            if fs.name != (ob.fn or '').split('#')[0]:
+            if fs.label != (ob.fn or '').split('#')[0]:
                 continue
             try:
                 lines = open(self.scratch.path(fs.file), encoding='utf-8').read().split('\n')
